@@ -28,17 +28,32 @@ func VThrottleRate() {
 	for i := 0; i < n; i++ {
 		xs[i] = vrt.Int("x")
 	}
-	in := make(chan int, capc)
+	// seq=1: the input is pre-filled (the data goroutine can still be arbitrarily
+	// late under the lax clock, which is what lets tokens pile up before a burst)
+	var in <-chan int
+	if vrt.Param("seq", 0) == 1 {
+		ch := make(chan int, n)
+		for i := 0; i < n; i++ {
+			ch <- xs[i]
+		}
+		close(ch)
+		capc = n
+		bound = 2*ops + 1 + capc
+		in = ch
+	} else {
+		ch := make(chan int, capc)
+		vrt.Go("producer", func() {
+			for i := 0; i < n; i++ {
+				ch <- xs[i]
+			}
+			close(ch)
+		})
+		in = ch
+	}
 	out := Throttling(ctx, in, ops, time.Duration(interval))
 	vrt.Daemon("Throttling[int]$1")
 	var d [v13N]int
 	got := 0
-	vrt.Go("producer", func() {
-		for i := 0; i < n; i++ {
-			in <- xs[i]
-		}
-		close(in)
-	})
 	vrt.Go("consumer", func() {
 		for v := range out {
 			ok := false
@@ -61,7 +76,7 @@ func VThrottleRate() {
 		vrt.Cover("throttle.consumer-done")
 	})
 	vrt.Final("throttle.complete", func() bool {
-		return got == n && vrt.Closed(out) && vrt.LibExited() && vrt.Exited("producer") && vrt.Exited("consumer")
+		return got == n && vrt.Closed(out) && vrt.LibExited() && (vrt.Param("seq", 0) == 1 || vrt.Exited("producer")) && vrt.Exited("consumer")
 	})
 }
 
